@@ -249,7 +249,13 @@ fn case(g: &mut Gen, ctx: &mut Ctx) -> CaseResult {
     let types = all_types();
     let t = &types[g.below(types.len())];
     let mut f = if g.ratio(1, 5) { Faults::one() } else { Faults::none() };
-    let item = gen_for_shape(g, t.shape, &mut f);
+    let mut item = gen_for_shape(g, t.shape, &mut f);
+    if g.ratio(1, 10) {
+        // a valid encoding presented in a wrapper (tag 24 / bstr / another tag / array / hex text)
+        let valid = gen_for_shape(g, t.shape, &mut Faults::none());
+        item = crate::gen::gen_embedded(g, valid);
+        ctx.class("embedded");
+    }
     let o = if g.bool() { StyleOpts::NONE } else { StyleOpts::ALL };
     let (mut b, _) = styled(&item, g, o);
     // occasionally a byte-level mutation (the differential holds for every byte string)
